@@ -71,11 +71,10 @@ Lemma get_buffer_shape els :
   match get_buffer els with
   | Ok (b, _) => blen b = record_len els | Panic => True | _ => False end.
 Proof.
-  unfold get_buffer. destruct (Nat.eqb_spec (N.to_nat (record_len els)) 0) as [Z|NZ].
-  - unfold blen. cbn [length]. lia.
-  - pose proof (get_buffer_loop_shape els (zeros (N.to_nat (record_len els))) 0 0) as S.
-    destruct (get_buffer_loop _ _ _ _) as [[b k]| | |]; auto.
-    unfold blen. rewrite S, length_zeros. lia.
+  unfold get_buffer.
+  pose proof (get_buffer_loop_shape els (zeros (N.to_nat (record_len els))) 0 0) as S.
+  destruct (get_buffer_loop _ _ _ _) as [[b k]| | |]; auto.
+  unfold blen. rewrite S, length_zeros. lia.
 Qed.
 
 (* ---- GetBuffer into a buffer of the recorded (add-time) length ---- *)
@@ -93,47 +92,32 @@ Proof. unfold enc_total. now rewrite enc_total_acc. Qed.
    encoded buffer of Codec.get_buffer (the length repair never fires) *)
 Lemma get_buffer_n_eq els : get_buffer_n (record_len els) els = get_buffer els.
 Proof.
-  unfold get_buffer_n, get_buffer. destruct (Nat.eqb (N.to_nat (record_len els)) 0); [reflexivity|].
+  unfold get_buffer_n, get_buffer_g, get_buffer. cbn [negb andb].
   destruct (get_buffer_loop _ _ _ _) as [[b k]| | |]; cbn [obind]; try reflexivity.
   rewrite enc_total_eq, Nat.eqb_refl. cbn [negb]. rewrite andb_false_r. reflexivity.
 Qed.
-Lemma get_buffer_n_orig_eq els : get_buffer_n_orig (record_len els) els = get_buffer els.
-Proof. reflexivity. Qed.
 
 (* whatever the element values are now, the buffer has the recorded length *)
-Lemma get_buffer_n_shape len els :
-  match get_buffer_n len els with
+Lemma get_buffer_g_shape fz fl len els :
+  match get_buffer_g fz fl len els with
   | Ok (b, _) => blen b = len | Panic => True | _ => False end.
 Proof.
-  unfold get_buffer_n. destruct (Nat.eqb_spec (N.to_nat len) 0) as [Z|NZ].
-  - unfold blen. cbn [length]. lia.
+  unfold get_buffer_g. destruct (negb fz && Nat.eqb (N.to_nat len) 0) eqn:Z.
+  - apply andb_true_iff in Z as [_ Z]. apply Nat.eqb_eq in Z. unfold blen. cbn [length]. lia.
   - pose proof (get_buffer_loop_shape els (zeros (N.to_nat len)) 0 0) as S.
     destruct (get_buffer_loop _ _ _ _) as [[b k]| | |]; cbn [obind]; auto.
     unfold blen. rewrite S, length_zeros. lia.
 Qed.
-Lemma get_buffer_n_orig_shape len els :
-  match get_buffer_n_orig len els with
+Lemma get_buffer_n_shape len els :
+  match get_buffer_n len els with
   | Ok (b, _) => blen b = len | Panic => True | _ => False end.
-Proof.
-  unfold get_buffer_n_orig. destruct (Nat.eqb_spec (N.to_nat len) 0) as [Z|NZ].
-  - unfold blen. cbn [length]. lia.
-  - pose proof (get_buffer_loop_shape els (zeros (N.to_nat len)) 0 0) as S.
-    destruct (get_buffer_loop _ _ _ _) as [[b k]| | |]; auto.
-    unfold blen. rewrite S, length_zeros. lia.
-Qed.
-(* the two differ only in the error count *)
-Lemma get_buffer_n_bytes len els :
-  omap fst (get_buffer_n len els) = omap fst (get_buffer_n_orig len els).
-Proof.
-  unfold get_buffer_n, get_buffer_n_orig. destruct (Nat.eqb (N.to_nat len) 0); [reflexivity|].
-  destruct (get_buffer_loop _ _ _ _) as [[b k]| | |]; reflexivity.
-Qed.
+Proof. apply get_buffer_g_shape. Qed.
 
 (* no encode error (in the repaired code): the current values occupy exactly the recorded length *)
 Lemma get_buffer_n_noerr len els b :
-  get_buffer_n len els = Ok (b, 0%nat) -> len <> 0 -> len = record_len els.
+  get_buffer_n len els = Ok (b, 0%nat) -> len = record_len els.
 Proof.
-  unfold get_buffer_n. destruct (Nat.eqb_spec (N.to_nat len) 0) as [Z|NZ]; [lia|]. intros H _.
+  unfold get_buffer_n, get_buffer_g. cbn [negb andb]. intros H.
   destruct (get_buffer_loop _ _ _ _) as [[b' k]| | |]; cbn [obind] in H; try discriminate.
   destruct k; cbn [Nat.eqb andb] in H.
   - rewrite enc_total_eq in H. destruct (Nat.eqb_spec (N.to_nat (record_len els)) (N.to_nat len)); cbn [negb] in H; [lia|discriminate].
@@ -422,9 +406,9 @@ Qed.
 Lemma good_rec_buffer r : good_rec r ->
   match rec_buffer r with Ok b => blen b = rec_len r | Panic => True | _ => False end.
 Proof.
-  destruct r as [tid fc els buf m|tid fc els len]; unfold rec_buffer; cbn [good_rec rec_buffer_e rec_len omap fst].
+  destruct r as [tid fc els buf m|tid fc els len]; unfold rec_buffer, rec_buffer_e; cbn [good_rec rec_buffer_e_g rec_len omap fst].
   - reflexivity.
-  - intros _. pose proof (get_buffer_n_shape len els) as S.
+  - intros _. fold (get_buffer_n len els). pose proof (get_buffer_n_shape len els) as S.
     destruct (get_buffer_n len els) as [[b k]| | |]; cbn [omap fst]; exact S.
 Qed.
 (* the same without any hypothesis: the buffer of a data record has the recorded length even
@@ -432,15 +416,18 @@ Qed.
 Lemma rec_buffer_len r :
   match rec_buffer r with Ok b => blen b = rec_len r | Panic => True | _ => False end.
 Proof.
-  destruct r as [tid fc els buf m|tid fc els len]; unfold rec_buffer; cbn [rec_buffer_e rec_len omap fst].
+  destruct r as [tid fc els buf m|tid fc els len]; unfold rec_buffer, rec_buffer_e; cbn [rec_buffer_e_g rec_len omap fst].
   - reflexivity.
-  - pose proof (get_buffer_n_shape len els) as S.
+  - fold (get_buffer_n len els). pose proof (get_buffer_n_shape len els) as S.
     destruct (get_buffer_n len els) as [[b k]| | |]; cbn [omap fst]; exact S.
 Qed.
 (* an unchanged record: GetBuffer as specified in Codec.v *)
 Lemma good_rec_buffer_e tid fc els len :
   good_rec (DRec tid fc els len) -> rec_buffer_e (DRec tid fc els len) = get_buffer els.
-Proof. cbn [good_rec rec_buffer_e]. intros ->. apply get_buffer_n_eq. Qed.
+Proof. unfold rec_buffer_e. cbn [good_rec rec_buffer_e_g]. intros ->. apply get_buffer_n_eq. Qed.
+(* the buffer of a data record, in terms of its length and current values *)
+Lemma rec_buffer_e_data tid fc els len : rec_buffer_e (DRec tid fc els len) = get_buffer_n len els.
+Proof. reflexivity. Qed.
 
 Lemma window_exact b : window (length b) b = b.
 Proof. unfold window. rewrite firstn_all, Nat.sub_diag. cbn. apply app_nil_r. Qed.
